@@ -16,12 +16,20 @@ import cpu_props
 from common import DEVNAMES, Case, bg, device_classes, gen_case, widths
 
 ID = 'C05'
-LEAN_MODULES = ['Py65.Props.C05']
-NAMESPACES = ['Py65.Props.C05']
+LEAN_MODULES = ['Py65.Props.C05', 'Py65.Props.C05h']
+NAMESPACES = ['Py65.Props.C05', 'Py65.Props.C05h']
+EXPECTED_THEOREMS = ['Py65.Props.C05.undeclared_dev6502', 'Py65.Props.C05.undeclared_dev65c02',
+                     'Py65.Props.C05.undeclared_dev65org16', 'Py65.Props.C05.pc_closed',
+                     'Py65.Props.C05h.closed_step', 'Py65.Props.C05h.closed_step_6502', 'Py65.Props.C05h.closed_step_65c02',
+                     'Py65.Props.C05h.closed_step_65org16', 'Py65.Props.C05h.closed_call', 'Py65.Props.C05h.closed_history',
+                     'Py65.Props.C05h.closed_history_6502', 'Py65.Props.C05h.closed_history_65c02',
+                     'Py65.Props.C05h.closed_history_65org16', 'Py65.Props.C05h.accesses_closed_history',
+                     'Py65.Props.C05h.writes_closed_history', 'Py65.Props.C05h.reads_closed_history']
 LEVEL = 'proof'
 TRUSTED = ['Spec.Cpu (oracle of the closure lemmas)', 'translator py2lean, validated every run',
            'Python list / ObservableMemory semantics for in-range indices']
-ASSUMPTIONS = ['closure (registers/PC in range) is proved for undeclared opcodes, irq/nmi/reset and the opcodes covered by C01-C03; "touches only in-range addresses" is carried by the bounds-checking-memory runs and C12',
+ASSUMPTIONS = ['C05h (histories, FULL): WF is preserved by step() at EVERY opcode byte 0..255 of every device (declared via C01-C03 + closure of the programming model Proofs/HistSpecClosed.lean; ADC/SBC in binary AND decimal mode and JSR without side condition directly on the generated helpers, Proofs/HistArith.lean; undeclared via undeclared_dev*; waiting 65C02), by irq(), nmi() and reset(start); hence at every state of every history (closed_history); every access the recording memory logs along a history - all reads and all writes - is at an address inside the address space and every written value fits the byte (accesses_closed_history, writes_/reads_closed_history; per generated handler in Proofs/HistLogHandlers.lean, dispatch through the translator tables devX.instructL); quantified per call (Hist.OpOK): reset(start) is given an address, the 65Org16 opcode cell holds a byte 0..255; initial state well-formed, 6502/65Org16 not waiting',
+               'one-step facts of C05 proper: undeclared opcodes, irq/nmi/reset, PC after every step; "never raises" = in-range indices cannot raise on a list / ObservableMemory (C10/C11) + translator accepted the source; the three memory kinds are additionally run dynamically',
                '65Org16: opcode cell in 0..255 (the property quantifies over opcode BYTES 0-255)']
 RULE = ('3 devices x 256 opcode bytes x boundary-biased states x memory kinds {list, ObservableMemory, '
         'bounds-checking}; short histories of step/irq/nmi/reset; distinct = (device, opcode, memory kind, '
